@@ -378,11 +378,16 @@ func (p *Persister) flushNow(ctx context.Context, batch map[string]persistData, 
 
 	defer tx.Discard()
 	for id, data := range batch {
-		err := data.storeFunc(ctx)
-		if err != nil {
-			p.logger.Err(ctx, err).
+		storeErr := data.storeFunc(ctx)
+		if storeErr != nil {
+			p.logger.Err(ctx, storeErr).
 				Str(log.ConnectorIDField, id).
 				Msg("error while saving connector")
+			// A failed write must fail the whole flush: the transaction is
+			// discarded and every callback is told, so that no source is
+			// acked for a position that never reached the store.
+			err = cerrors.Errorf("failed to save connector %s: %w", id, storeErr)
+			break
 		}
 	}
 	if err == nil {
